@@ -79,6 +79,10 @@ type state struct {
 	live    map[int]ep // the property's own view: live endpoints
 	renamed bool       // a live endpoint changed its interface name earlier in this case
 	batched bool       // a CompleteDeferredWork with >=2 distinct pending ids happened earlier in this case
+	ref         *refMgr  // Go port of the model of the CURRENT code (classification of known findings only)
+	refDiverged bool     // the real manager has left the behaviour of the current code in this case
+	dead        bool     // the real code panicked earlier in this case
+	history     []string // ops of this case so far
 }
 
 func wid(id int) *proto.WorkloadEndpointID {
@@ -122,6 +126,9 @@ func mkEp(id int, e ep) *proto.WorkloadEndpoint {
 var profRe = regexp.MustCompile(`cali-pri-p(\d+)x(\d+)`)
 
 func showEp(w *proto.WorkloadEndpoint) string {
+	if w == nil {
+		return "nil" // only a broken manager stores a nil endpoint in one of its maps
+	}
 	m := regexp.MustCompile(`^p(\d+)x(\d+)$`).FindStringSubmatch(w.ProfileIds[0])
 	up := "0"
 	if w.State == "active" {
@@ -211,10 +218,34 @@ func (s *state) dump() string {
 
 // oracle: each interface name carries exactly the state of its preferred (smallest-id) live endpoint,
 // routes only for admin-up endpoints, nothing for names no live endpoint uses.
-func (s *state) oracle(h *rt.H, op string) {
+// label names the shape of a failure that the current code is known to produce after a rename:
+// d1 = the preferred endpoint is still shadowed (nobody promoted it when the holder renamed away),
+// d3 = state left on the OLD interface of an endpoint that was renamed onto a held interface,
+// cascade = a longer combination of the two.
+func (s *state) label(name int, pref map[int]int) string {
+	if owner, ok := s.ref.ifaceToID[name]; ok {
+		if cur, live := s.live[owner]; live && cur.name != name {
+			return "d3"
+		}
+	}
+	if id, ok := pref[name]; ok {
+		if a, act := s.ref.active[id]; act && a.name != name {
+			return "d3" // the preferred endpoint is still active under its OLD interface name
+		}
+		if _, sh := s.ref.shadowed[id]; sh {
+			return "d1"
+		}
+	}
+	return "cascade"
+}
+
+func (s *state) oracle(h *rt.H, op string, explained bool) {
 	suffix := ":norename"
-	if s.renamed {
-		suffix = ":rename"
+	if s.renamed && !explained {
+		// after a rename, but NOT what the current code (with its known rename defects D1/D3) does here
+		suffix = ":rename-unexplained"
+	} else if s.renamed {
+		suffix = ":rename-"
 	} else if s.batched {
 		// rename-free, but several updates were pending at once.  Proved correct for the fixed code
 		// (iface_state_eq_spec_batches_partial); before the D4 fix a promotion could overwrite a pending
@@ -233,7 +264,13 @@ func (s *state) oracle(h *rt.H, op string) {
 		for id, e := range s.live {
 			lv[id] = fmt.Sprintf("%d.%v.%d", e.name, e.up, e.data)
 		}
-		return map[string]any{"op": op, "live": join(lv), "dump": s.dump()}
+		return map[string]any{"op": op, "live": join(lv), "dump": s.dump(), "history": strings.Join(s.history, "; ")}
+	}
+	sfx := func(name int) string {
+		if suffix == ":rename-" {
+			return suffix + s.label(name, pref)
+		}
+		return suffix
 	}
 	for name, id := range pref {
 		e := s.live[id]
@@ -243,26 +280,26 @@ func (s *state) oracle(h *rt.H, op string) {
 		}
 		got, ok := chains[name]
 		if !ok {
-			h.OracleFail("claimed-iface-missing-state"+suffix, fmt.Sprintf("interface cali%d is claimed by live endpoint %d but has no policy chains", name, id), in())
+			h.OracleFail("claimed-iface-missing-state"+sfx(name), fmt.Sprintf("interface cali%d is claimed by live endpoint %d but has no policy chains", name, id), in())
 		} else if got != want {
-			h.OracleFail("iface-carries-wrong-endpoint"+suffix, fmt.Sprintf("interface cali%d carries chains %s, preferred live endpoint wants %s", name, got, want), in())
+			h.OracleFail("iface-carries-wrong-endpoint"+sfx(name), fmt.Sprintf("interface cali%d carries chains %s, preferred live endpoint wants %s", name, got, want), in())
 		}
 		wantR, haveR := "", routes[name]
 		if e.up {
 			wantR = fmt.Sprintf("%d.%d", id, e.data)
 		}
 		if ok && got == want && haveR != wantR {
-			h.OracleFail("routes-mismatch"+suffix, fmt.Sprintf("interface cali%d has routes %q, want %q", name, haveR, wantR), in())
+			h.OracleFail("routes-mismatch"+sfx(name), fmt.Sprintf("interface cali%d has routes %q, want %q", name, haveR, wantR), in())
 		}
 	}
 	for name := range chains {
 		if _, ok := pref[name]; !ok {
-			h.OracleFail("unclaimed-iface-has-state"+suffix, fmt.Sprintf("interface cali%d has policy chains but no live endpoint uses it", name), in())
+			h.OracleFail("unclaimed-iface-has-state"+sfx(name), fmt.Sprintf("interface cali%d has policy chains but no live endpoint uses it", name), in())
 		}
 	}
 	for name := range routes {
 		if _, ok := pref[name]; !ok {
-			h.OracleFail("unclaimed-iface-has-routes"+suffix, fmt.Sprintf("interface cali%d has routes but no live endpoint uses it", name), in())
+			h.OracleFail("unclaimed-iface-has-routes"+sfx(name), fmt.Sprintf("interface cali%d has routes but no live endpoint uses it", name), in())
 		}
 	}
 }
@@ -275,8 +312,24 @@ func atoi(s string) int {
 	return n
 }
 
-func exec(h *rt.H, s *state, op string) string {
+func exec(h *rt.H, s *state, op string) (out string) {
 	w := strings.Fields(op)
+	if w[0] != "new" {
+		if s.dead {
+			return "dead"
+		}
+		s.history = append(s.history, op)
+		// a panic in the real code is a finding in itself: report it with the history and stop the case
+		defer func() {
+			if r := recover(); r != nil {
+				s.dead = true
+				h.OracleFail("panic", fmt.Sprintf("the real endpointManager panicked: %v", r),
+					map[string]any{"op": op, "history": strings.Join(s.history, "; ")})
+				out = "panic"
+			}
+		}()
+	}
+	pend := map[int]*ep{}
 	switch w[0] {
 	case "new":
 		s.filter = &mockTable{chains: map[string]*generictables.Chain{}}
@@ -299,10 +352,12 @@ func exec(h *rt.H, s *state, op string) string {
 		s.live = map[int]ep{}
 		s.renamed = false
 		s.batched = false
+		s.ref, s.refDiverged, s.dead, s.history = newRef(), false, false, nil
 		return s.dump()
 	case "up":
 		id := atoi(w[1])
 		e := ep{name: atoi(w[2]), up: w[3] != "0", data: atoi(w[4])}
+		pend[id] = &e
 		if old, ok := s.live[id]; ok && old.name != e.name {
 			s.renamed = true
 			h.Count("rename")
@@ -311,6 +366,7 @@ func exec(h *rt.H, s *state, op string) string {
 		s.live[id] = e
 	case "rm":
 		id := atoi(w[1])
+		pend[id] = nil
 		s.m.OnUpdate(&proto.WorkloadEndpointRemove{Id: wid(id)})
 		delete(s.live, id)
 	case "batch":
@@ -325,9 +381,11 @@ func exec(h *rt.H, s *state, op string) string {
 			ids[id] = true
 			if f[0] == "u" {
 				e := ep{name: atoi(f[2]), up: f[3] != "0", data: atoi(f[4])}
+				pend[id] = &e
 				s.m.OnUpdate(&proto.WorkloadEndpointUpdate{Id: wid(id), Endpoint: mkEp(id, e)})
 				s.live[id] = e
 			} else {
+				pend[id] = nil
 				s.m.OnUpdate(&proto.WorkloadEndpointRemove{Id: wid(id)})
 				delete(s.live, id)
 			}
@@ -356,8 +414,26 @@ func exec(h *rt.H, s *state, op string) string {
 	if err := s.m.CompleteDeferredWork(); err != nil {
 		return "err:complete"
 	}
-	s.oracle(h, op)
-	out := s.dump()
+	out = s.dump()
+	// advance the reference (current-code semantics); with several pending updates take the processing order
+	// that reproduces what the real manager did
+	explained := false
+	if !s.refDiverged {
+		var match *refMgr
+		for _, o := range s.ref.outcomes(pend, 0) {
+			if o.dump() == out {
+				match = o
+				break
+			}
+		}
+		if match != nil {
+			s.ref, explained = match, true
+		} else {
+			s.refDiverged = true
+			h.Count("ref:diverged")
+		}
+	}
+	s.oracle(h, op, explained)
 	if strings.Contains(out, "S[-]") {
 		h.Count("shadowed:none")
 	} else {
